@@ -81,6 +81,10 @@ CheckEnc(e) ==
   ELSE IF e.size /\ HasOrd(e.g) /\ r.g.size # Len(e.bytes) - (r.g.sizeEnd - 1) THEN "size-header"
   ELSE IF e.bbox /\ HasOrd(e.g) /\ (~r.g.hasBBox \/ r.g.bbox # BBoxOf(r.g, Dim(e.ct))) THEN "bbox-header"
   ELSE IF Len(e.ids) > 0 /\ HasOrd(e.g) /\ (~r.g.hasIDs \/ r.g.ids # ExpIds(e)) THEN "id-list"
+  \* the same call with the same arguments gives the same bytes (the writer neither consumes nor rewrites what the caller
+  \* passed, the id list included), and a result is not touched by later calls
+  ELSE IF ~e.again THEN "same-call-again-gives-other-bytes"
+  ELSE IF ~e.stable THEN "result-overwritten-by-a-later-call"
   \* the library's own decode of its own bytes
   ELSE IF e.decerr # "" THEN "unmarshal-error"
   ELSE IF e.dec # Proj(r.g) THEN "decode-differs-from-spec-reader"
